@@ -34,6 +34,22 @@ def refill_fn(prog):
     return out
 
 
+def refill_family(prog):
+    """the refill function and the buffer-level wrappers around it: functions that are handed the BufReader (not the reader)
+    and call a member of the family (`fill_buf` looping over `read_uninterrupted`)"""
+    fam = list(refill_fn(prog))
+    grew = True
+    while grew:
+        grew = False
+        for b in prog.bodies.values():
+            if b in fam or b.promoted_of is not None or '{closure' in b.key or b.arg_count < 1:
+                continue
+            if 'BufReader<' in b.local_tys[1] and '::Reader<' not in b.local_tys[1] and any(prog.local_callee_body(t.callee) in fam for _, t in b.calls()):
+                fam.append(b)
+                grew = True
+    return fam
+
+
 def scope_bodies(prog):
     out = []
     for b in prog.bodies.values():
@@ -344,6 +360,7 @@ def fill_rules(prog, R, f):
                 out = 'threshold'     # a test against another constant (FILL-6 reports it where the count is used by the readers)
         return out
     seen_zero_exit = False
+    any_passthrough = False
     n_ok = n_bad_ok = 0
     for p in paths:
         did_read = any(t is rt for (_, t, _) in p.effects)
@@ -369,6 +386,16 @@ def fill_rules(prog, R, f):
                 R.add('FILL-2', f, 'exit:loop-condition', capd, site(f, line), 'left without reading under a condition that %s the capacity (that it implies a full buffer is FILL-7)' % ('compares with' if capd else 'does NOT mention'))
             continue
         var = variant_of(p)
+        # the result of the read handed on as it is (`result => return result`): this function is a single (retried) read, the
+        # loop that fills the buffer is its caller's - whatever was read, Ok(0) and the error included, leaves through here
+        passthrough = exits and isinstance(r0, Aff) and r0.single() == res_sym
+        if passthrough:
+            seen_zero_exit = True
+            any_passthrough = True
+            R.add('FILL-2', f, 'exit:result-handed-on', True, site(f, line), 'the result of the read is returned as received (also Ok(0) and every error that is not retried)')
+            if var == 'Err':
+                R.add('FILL-4', f, 'returned-error-is-received-error', True, site(f, line), 'the received result is returned as it is')
+            continue
         if var == 'Ok':
             z = zeroness(p)
             if exits and z == 'zero':
